@@ -1,11 +1,13 @@
 NAME = 'K-table'
-PROPERTIES = ['C09', 'C10', 'C14']
+PROPERTIES = ['C09', 'C10', 'C14', 'C15']
 ENGINE = 'verus'
 CLASS = 'U'
-DOC = ('Table (storage/table/mod.rs): every mutator re-establishes "the hash indexes are in sync with the row vector" - the fact the UPDATE / DELETE '
-       'primary-key fast path (unit D-pk) and the PRIMARY KEY / UNIQUE checks rely on. IndexManager is an abstract interface with ASSUMED contracts here '
-       '(the real IndexManager operations are verified separately, unit K-index: exact effect of each maintenance call, mirror after rebuild); what is PROVED here is the Table-level protocol: which IndexManager operation is called, '
-       'with which row / position, in which order - e.g. delete_where and remove_row end with a rebuild because removals shift positions.')
+DOC = ('Table (storage/table/mod.rs): every mutator (insert, update_row, update_row_selective, delete_where, remove_row, clear, rebuild_indexes) re-establishes the '
+       'representation invariant "the hash indexes mirror the row vector and no two rows share a PRIMARY KEY / UNIQUE key" - the fact the UPDATE / DELETE '
+       'primary-key fast path (unit D-pk) and the PRIMARY KEY / UNIQUE checks rely on, and the table half of C15. The writes keep it when the keys of the STORED '
+       'row are fresh (held by no other row: what the uniqueness checks before a write establish); the removals rebuild because positions shift. IndexManager '
+       'is an abstract interface here whose ASSUMED contracts are, clause by clause, postconditions PROVED of the real IndexManager in unit K-index; what is '
+       'PROVED here is the Table-level protocol: which IndexManager operation is called, with which row / position, in which order.')
 
 TEMPLATE = r'''
 use vstd::prelude::*;
@@ -17,11 +19,18 @@ impl Row {
     #[verifier::external_body] pub fn clone(&self) -> (r: Row) ensures r == *self { unimplemented!() }
 }
 #[verifier::external_body] pub struct TableSchema { s: u8 }
+impl TableSchema { #[verifier::external_body] pub fn get_primary_key_indices(&self) -> (r: Option<Vec<usize>>) { unimplemented!() } }
 #[verifier::external_body] pub struct AppendModeTracker { a: u8 }
 impl AppendModeTracker {
     #[verifier::external_body] pub fn reset(&mut self) { unimplemented!() }
+    #[verifier::external_body] pub fn update(&mut self, pk: &Vec<SqlValue>) { unimplemented!() }
 }
-#[verifier::external_body] pub struct TableStatistics { t: u8 }
+#[verifier::external_body] pub struct StatsRest { t: u8 }
+pub struct TableStatistics { pub row_count: usize, pub rest: StatsRest }
+impl TableStatistics { #[verifier::external_body] pub fn mark_stale(&mut self) ensures final(self).row_count == old(self).row_count { unimplemented!() } }
+#[verifier::external_body] pub struct SqlValue { v: u8 }
+// pk_indices.iter().map(|&idx| row.values[idx].clone()).collect()  (feeds the append-mode tracker only)
+#[verifier::external_body] fn project_pk(row: &Row, idx: &Vec<usize>) -> (r: Vec<SqlValue>) { unimplemented!() }
 pub enum StorageError { ColumnIndexOutOfBounds { index: usize }, RowNotFound, Other }
 // RowNormalizer::new(&schema).normalize_and_validate(row)
 #[verifier::external_body] pub struct RowNormalizer<'a> { s: &'a TableSchema }
@@ -53,11 +62,20 @@ fn position_of(rows: &Vec<Row>, target: &Row) -> (r: Option<usize>)
             r is None ==> !rows@.contains(*target)
 { unimplemented!() }
 
-// ---------------- IndexManager: ASSUMED contracts (see TRUSTED) ----------------------------------------------------------
+// ---------------- IndexManager: ASSUMED contracts, each one PROVED of the real code in unit K-index (see TRUSTED) ------------------
 #[verifier::external_body] pub struct IndexManager { i: u8 }
 impl IndexManager {
-    /// the hash indexes (primary key, unique constraints) hold exactly the keys of `rows`, each mapped to its position
+    /// the hash indexes (primary key, unique constraints) hold exactly the keys of `rows`, each mapped to its position  (K-index: synced_n)
     pub uninterp spec fn synced(&self, schema: &TableSchema, rows: Seq<Row>) -> bool;
+    /// no two rows share a stored PRIMARY KEY / UNIQUE key  (K-index: all_dupfree)
+    pub uninterp spec fn dupfree(schema: &TableSchema, rows: Seq<Row>) -> bool;
+    /// the PRIMARY KEY / UNIQUE keys of `row`, about to be stored at position i, are held by no OTHER row  (K-index: all_fresh) - what the
+    /// uniqueness checks of the executors establish before they write (C10)
+    pub uninterp spec fn fresh(schema: &TableSchema, rows: Seq<Row>, i: int, row: Row) -> bool;
+    /// the list names exactly the constraint indexes with a column in the set  (K-index: covers)
+    pub uninterp spec fn covers(schema: &TableSchema, changed: &ColSet, affected: &IndexTypes) -> bool;
+    /// every constraint index the list does not name has the same key in both rows  (K-index: unlisted_same)
+    pub uninterp spec fn unlisted_same(schema: &TableSchema, affected: &IndexTypes, a: Row, b: Row) -> bool;
 
     #[verifier::external_body]
     pub fn new(schema: &TableSchema) -> (r: IndexManager) ensures r.synced(schema, Seq::<Row>::empty()) { unimplemented!() }
@@ -65,37 +83,67 @@ impl IndexManager {
     pub fn rebuild(&mut self, schema: &TableSchema, rows: &Vec<Row>) ensures final(self).synced(schema, rows@) { unimplemented!() }
     #[verifier::external_body]
     pub fn clear(&mut self) ensures forall|s: &TableSchema| #![auto] final(self).synced(s, Seq::<Row>::empty()) { unimplemented!() }
-    /// appending `row` at position row_index == (number of rows before)
+    /// appending `row` at position row_index == (number of rows before)   (K-index update_for_insert: APPEND KEEPS THE MIRROR)
     #[verifier::external_body]
     pub fn update_for_insert(&mut self, schema: &TableSchema, row: &Row, row_index: usize)
-        ensures forall|rows: Seq<Row>| #![auto] old(self).synced(schema, rows) && row_index == rows.len() ==> final(self).synced(schema, rows.push(*row))
+        ensures forall|rows: Seq<Row>| #![trigger old(self).synced(schema, rows)] old(self).synced(schema, rows) && rows.len() < usize::MAX && row_index == rows.len()
+                    ==> final(self).synced(schema, rows.push(*row))
+                        && (IndexManager::dupfree(schema, rows) && IndexManager::fresh(schema, rows, rows.len() as int, *row) ==> IndexManager::dupfree(schema, rows.push(*row)))
     { unimplemented!() }
-    /// replacing old_row by new_row at position row_index
+    /// replacing old_row by new_row at position row_index   (K-index update_for_update: WRITE-IN-PLACE KEEPS THE MIRROR - on a duplicate-free table, new keys fresh)
     #[verifier::external_body]
     pub fn update_for_update(&mut self, schema: &TableSchema, old_row: &Row, new_row: &Row, row_index: usize)
-        ensures forall|rows: Seq<Row>| #![auto] old(self).synced(schema, rows) && row_index < rows.len() && rows[row_index as int] == *old_row
-                    ==> final(self).synced(schema, rows.update(row_index as int, *new_row))
+        ensures forall|rows: Seq<Row>| #![trigger old(self).synced(schema, rows)] old(self).synced(schema, rows) && rows.len() <= usize::MAX && row_index < rows.len() && rows[row_index as int] == *old_row
+                    && IndexManager::dupfree(schema, rows) && IndexManager::fresh(schema, rows, row_index as int, *new_row)
+                    ==> final(self).synced(schema, rows.update(row_index as int, *new_row)) && IndexManager::dupfree(schema, rows.update(row_index as int, *new_row))
     { unimplemented!() }
+    /// (K-index get_affected_indexes)
     #[verifier::external_body]
-    pub fn get_affected_indexes(&self, schema: &TableSchema, changed: &ColSet) -> (r: IndexTypes) { unimplemented!() }
-    /// like update_for_update, restricted to the indexes over changed columns (the others are unaffected by definition of `changed`)
+    pub fn get_affected_indexes(&self, schema: &TableSchema, changed: &ColSet) -> (r: IndexTypes) ensures IndexManager::covers(schema, changed, &r) { unimplemented!() }
+    /// like update_for_update, restricted to the LISTED indexes: the others must have an unchanged key   (K-index update_selective)
     #[verifier::external_body]
     pub fn update_selective(&mut self, schema: &TableSchema, old_row: &Row, new_row: &Row, row_index: usize, affected: &IndexTypes)
-        ensures forall|rows: Seq<Row>| #![auto] old(self).synced(schema, rows) && row_index < rows.len() && rows[row_index as int] == *old_row
-                    ==> final(self).synced(schema, rows.update(row_index as int, *new_row))
+        ensures forall|rows: Seq<Row>| #![trigger old(self).synced(schema, rows)] old(self).synced(schema, rows) && rows.len() <= usize::MAX && row_index < rows.len() && rows[row_index as int] == *old_row
+                    && IndexManager::dupfree(schema, rows) && IndexManager::fresh(schema, rows, row_index as int, *new_row)
+                    && IndexManager::unlisted_same(schema, affected, *old_row, *new_row)
+                    ==> final(self).synced(schema, rows.update(row_index as int, *new_row)) && IndexManager::dupfree(schema, rows.update(row_index as int, *new_row))
     { unimplemented!() }
     /// removes the row's keys; positions of later rows are NOT adjusted: nothing is promised about `synced` (a rebuild is needed)
     #[verifier::external_body]
     pub fn update_for_delete(&mut self, schema: &TableSchema, row: &Row) { unimplemented!() }
 }
+/// the two rows agree on every column outside the set (what "changed columns" means; established by the UPDATE executor, unit D-set side)
+pub uninterp spec fn differ_only_in(changed: &ColSet, a: Row, b: Row) -> bool;
+// facts about the uninterpreted predicates, each PROVED over their definitions in unit K-index
+/// K-index lemma_covers_unlisted_same
+#[verifier::external_body]
+proof fn fact_covers_unlisted_same(schema: &TableSchema, changed: &ColSet, affected: &IndexTypes, a: Row, b: Row)
+    requires IndexManager::covers(schema, changed, affected), differ_only_in(changed, a, b),
+    ensures IndexManager::unlisted_same(schema, affected, a, b)
+{ }
+/// K-index lemma_remove_dupfree: taking a row out of a duplicate-free table leaves it duplicate-free
+#[verifier::external_body]
+proof fn fact_remove_keeps_dupfree(schema: &TableSchema, rows: Seq<Row>, p: int)
+    requires 0 <= p < rows.len(), IndexManager::dupfree(schema, rows),
+    ensures IndexManager::dupfree(schema, rows.remove(p))
+{ }
+/// K-index lemma_empty_dupfree
+#[verifier::external_body]
+proof fn fact_empty_dupfree(schema: &TableSchema)
+    ensures IndexManager::dupfree(schema, Seq::<Row>::empty())
+{ }
 
 //@@ Table
 
 impl Table {
     /// representation invariant: the indexes mirror the row vector
-    pub open spec fn wf(&self) -> bool { self.indexes.synced(&self.schema, self.rows@) }
+    pub open spec fn synced_(&self) -> bool { self.indexes.synced(&self.schema, self.rows@) }
+    /// representation invariant: .. and no two rows share a PRIMARY KEY / UNIQUE key
+    pub open spec fn wf(&self) -> bool { self.synced_() && IndexManager::dupfree(&self.schema, self.rows@) }
 
 //@@ clear
+
+//@@ insert
 
 //@@ update_row
 
@@ -112,6 +160,12 @@ fn canary_delete(t: &mut Table, p: &RowPred)
     requires old(t).wf()
 {
     let n = t.delete_where(p);
+    assert(false); // CANARY
+}
+fn canary_insert(t: &mut Table, r: Row)
+    requires old(t).wf(), old(t).rows@.len() < usize::MAX, old(t).modifications_since_stats < usize::MAX
+{
+    let n = t.insert(r);
     assert(false); // CANARY
 }
 fn canary_update(t: &mut Table, i: usize, r: Row)
@@ -132,23 +186,45 @@ _PUBF = ('re', r'(?m)^(\s+)(\w+: )', r'\1pub \2', None)
 
 ITEMS = {
     'Table': dict(file=_F, path='struct Table', rewrites=_TY + [('re', r'\bpub (\w+: )', r'\1', None), _PUBF]),
-    'clear': dict(file=_F, path='impl Table::fn clear', rewrites=_TY, contract='''
+    'clear': dict(file=_F, path='impl Table::fn clear', rewrites=_TY, proofs=[('@entry', 'proof { fact_empty_dupfree(&self.schema); }')], contract='''
         ensures final(self).wf(), final(self).rows@.len() == 0,
+'''),
+    'insert': dict(file=_F, path='impl Table::fn insert', ret='res', rewrites=_TY + [
+        # R4: the key projection iterator chain (used only for the append-mode tracker)
+        ('re', r'(?s)let pk_values: Vec<SqlValue> =\s*pk_indices\.iter\(\)\.map\(\|&idx\| normalized_row\.values\[idx\]\.clone\(\)\)\.collect\(\);', 'let pk_values: Vec<SqlValue> = project_pk(&normalized_row, &pk_indices);', 1)],
+        contract='''
+        requires old(self).wf(), old(self).rows@.len() < usize::MAX, old(self).modifications_since_stats < usize::MAX
+        ensures
+            // a rejected row changes neither rows nor indexes
+            res is Err ==> stored_form(&old(self).schema, row) is None && final(self).rows@ == old(self).rows@ && final(self).wf(),
+            // an accepted row is appended in its STORED form, the hash indexes mirror the longer row vector ..
+            res is Ok ==> stored_form(&old(self).schema, row) is Some && final(self).rows@ == old(self).rows@.push(stored_form(&old(self).schema, row)->Some_0)
+                          && final(self).synced_(),
+            // .. and the table stays duplicate-free when the stored row's keys were fresh (the uniqueness check before the insert: C10)
+            res is Ok && IndexManager::fresh(&old(self).schema, old(self).rows@, old(self).rows@.len() as int, stored_form(&old(self).schema, row)->Some_0) ==> final(self).wf(),
 '''),
     'update_row': dict(file=_F, path='impl Table::fn update_row', ret='res', rewrites=_TY + [
         ('re', r'self\.rows\[index\] = normalized_row\.clone\(\);', 'self.rows.set(index, normalized_row.clone());', 1)],
         contract='''
         requires old(self).wf()
-        ensures final(self).wf(),
-                res is Err ==> final(self).rows@ == old(self).rows@,
-                res is Ok ==> final(self).rows@.len() == old(self).rows@.len() && forall|k: int| 0 <= k < old(self).rows@.len() && k != index ==> final(self).rows@[k] == old(self).rows@[k],
+        ensures res is Err ==> final(self).rows@ == old(self).rows@ && final(self).wf(),
+                // the row at `index` becomes the STORED form of the new row, every other row is untouched
+                res is Ok ==> index < old(self).rows@.len() && stored_form(&old(self).schema, row) is Some
+                              && final(self).rows@ == old(self).rows@.update(index as int, stored_form(&old(self).schema, row)->Some_0),
+                // the hash indexes mirror the new row vector when the stored row's keys were fresh (the uniqueness check before the write: C10)
+                res is Ok && IndexManager::fresh(&old(self).schema, old(self).rows@, index as int, stored_form(&old(self).schema, row)->Some_0) ==> final(self).wf(),
 '''),
     'update_row_selective': dict(file=_F, path='impl Table::fn update_row_selective', ret='res', rewrites=_TY + [
         ('re', r'self\.rows\[index\] = normalized_row\.clone\(\);', 'self.rows.set(index, normalized_row.clone());', 1)],
+        proofs=[('re:self\\.indexes\\.update_selective\\(', 'proof { if differ_only_in(changed_columns, old_row, normalized_row) { fact_covers_unlisted_same(&self.schema, changed_columns, &affected_indexes, old_row, normalized_row); } }')],
         contract='''
         requires old(self).wf()
-        ensures final(self).wf(),
-                res is Err ==> final(self).rows@ == old(self).rows@,
+        ensures res is Err ==> final(self).rows@ == old(self).rows@ && final(self).wf(),
+                res is Ok ==> index < old(self).rows@.len() && stored_form(&old(self).schema, row) is Some
+                              && final(self).rows@ == old(self).rows@.update(index as int, stored_form(&old(self).schema, row)->Some_0),
+                // in sync again when the new keys were fresh AND `changed_columns` really holds every column in which the stored row differs from the old one
+                res is Ok && IndexManager::fresh(&old(self).schema, old(self).rows@, index as int, stored_form(&old(self).schema, row)->Some_0)
+                    && differ_only_in(changed_columns, old(self).rows@[index as int], stored_form(&old(self).schema, row)->Some_0) ==> final(self).wf(),
 '''),
     'delete_where': dict(file=_F, path='impl Table::fn delete_where', ret='res', rewrites=_TY + [
         ('re', r'fn delete_where<F>\(&mut self, mut predicate: F\)', 'fn delete_where(&mut self, predicate: &RowPred)', 1),
@@ -180,11 +256,13 @@ ITEMS = {
                 // every position still to be removed is valid: rows has shrunk only behind them
                 self.rows@.len() + (indices_and_rows_to_delete@.len() - rv__) == old(self).rows@.len(),
                 forall|a: int| 0 <= a < rv__ ==> indices_and_rows_to_delete@[a].0 + (rv__ - a) <= self.rows@.len(),
+                self.schema == old(self).schema, IndexManager::dupfree(&self.schema, self.rows@),
             decreases rv__,
 ''', 2: '''
             invariant dl__ <= indices_and_rows_to_delete@.len(),
             decreases indices_and_rows_to_delete@.len() - dl__,
 '''},
+        proofs=[('@loop1', 'let ghost rows0__ = self.rows@;'), ('after:self.rows.remove(*index);', 'proof { fact_remove_keeps_dupfree(&self.schema, rows0__, *index as int); }')],
         contract='''
         requires old(self).wf()
         ensures final(self).wf(),                                   // the indexes are rebuilt: removals shift row positions
@@ -194,6 +272,7 @@ ITEMS = {
         ('re', r'self\.rows\.iter\(\)\.position\(\|row\| row == target_row\)', 'position_of(&self.rows, target_row)', None),
         # an equality predicate closure handed to delete_where (R: FnMut parameter -> abstract pure predicate)
         ('re', r'\|row\| row == (\w+)', r'&RowPred::eq_to(\1)', None)],
+        proofs=[('@entry', 'let ghost rows0__ = self.rows@;'), ('after:self.rows.remove(pos);', 'proof { fact_remove_keeps_dupfree(&self.schema, rows0__, pos as int); }')],
         contract='''
         requires old(self).wf()
         ensures final(self).wf(),
@@ -205,25 +284,29 @@ ITEMS = {
                 res is Err ==> !old(self).rows@.contains(probe_of(&old(self).schema, *target_row)),
 '''),
     'rebuild_indexes': dict(file=_F, path='impl Table::fn rebuild_indexes', rewrites=_TY, contract='''
-        ensures final(self).wf(), final(self).rows@ == old(self).rows@,
+        ensures final(self).synced_(), final(self).rows@ == old(self).rows@, final(self).schema == old(self).schema,
 '''),
 }
 
 OBLIGATIONS = {
     'clear': ['post:indexes_in_sync_with_empty_table'],
-    'update_row': ['post:indexes_in_sync__other_rows_untouched__error_changes_nothing', 'safety:index_in_bounds'],
-    'update_row_selective': ['post:indexes_in_sync__error_changes_nothing', 'safety:index_in_bounds'],
+    'insert': ['post:stored_form_appended__indexes_mirror_the_longer_vector__rejected_row_changes_nothing', 'safety:counter_overflow'],
+    'update_row': ['post:stored_form_written_at_the_position__indexes_in_sync_when_keys_fresh__other_rows_untouched__error_changes_nothing', 'safety:index_in_bounds'],
+    'update_row_selective': ['post:stored_form_written__indexes_in_sync_when_keys_fresh_and_changed_columns_complete__error_changes_nothing', 'safety:index_in_bounds'],
     'delete_where': ['post:indexes_in_sync_after_positions_shift__row_count', 'safety:every_removed_position_in_bounds', 'proof:loop_invariants'],
     'remove_row': ['post:exactly_one_row_equal_to_the_stored_form_of_the_given_row_goes__indexes_in_sync_after_positions_shift', 'safety:position_in_bounds'],
     'rebuild_indexes': ['post:indexes_in_sync__rows_untouched'],
 }
-CANARIES = ['canary_delete', 'canary_update']
+CANARIES = ['canary_delete', 'canary_update', 'canary_insert']
 TRUSTED = [
-    'external_body IndexManager (new, rebuild, clear, update_for_insert, update_for_update, update_selective, update_for_delete, get_affected_indexes): ASSUMED contracts over the uninterpreted predicate synced(schema, rows); the HashMap<Vec<SqlValue>, usize> maintenance in table/indexes.rs is verified in unit K-index (exact per-call effects on the pk / unique maps; `mirrors` after rebuild) - the link synced == mirrors between the two units is by reading, not by a shared definition. update_for_update / update_selective are assumed to re-sync only when handed the row that really was at that position',
-    'external_body Row (clone is a copy), TableSchema, AppendModeTracker::reset, TableStatistics, RowNormalizer (normalize_and_validate: the uninterpreted stored_form of the row, or an error), ColSet / IndexTypes (HashSet<usize>, Vec<IndexType>): opaque',
+    'external_body IndexManager (new, rebuild, clear, update_for_insert, update_for_update, update_selective, get_affected_indexes, update_for_delete): ASSUMED contracts over the uninterpreted predicates synced / dupfree / fresh / covers / unlisted_same; each clause is a postcondition PROVED of the real function in unit K-index (synced = synced_n over all rows, dupfree = all_dupfree, fresh = all_fresh, covers, unlisted_same) - the correspondence between the two units is clause by clause, by reading, not by a shared definition (Row and TableSchema are opaque here, reduced there)',
+    'external_body proof fns fact_covers_unlisted_same, fact_remove_keeps_dupfree, fact_empty_dupfree: facts about the uninterpreted predicates, PROVED over their definitions in unit K-index (lemma_covers_unlisted_same, lemma_all_remove_dupfree, lemma_all_empty_dupfree)',
+    'fresh(schema, rows, i, stored row) - the keys of the row about to be stored are held by no other row - is a PREMISE of the write contracts, established by the PRIMARY KEY / UNIQUE checks of the executors (C10), not here; differ_only_in(changed_columns, old, new) - the set holds every column that differs - is a premise of update_row_selective, established by the UPDATE executor, not under contract',
+    'external_body Row (clone is a copy), TableSchema (get_primary_key_indices), AppendModeTracker::reset / update, TableStatistics (row_count + the opaque StatsRest; mark_stale), RowNormalizer (normalize_and_validate: the uninterpreted stored_form of the row, or an error), SqlValue, project_pk (the key projection feeding the append-mode tracker), ColSet / IndexTypes (HashSet<usize>, Vec<IndexType>): opaque',
     'external_body RowPred::call / eq_to: the FnMut(&Row) -> bool parameter of delete_where as a pure function of the row; `|row| row == target` as its equality instance',
     'external_body position_of: rows.iter().position(|r| r == target) returns a valid position holding an equal row, None iff there is none (std, Row::eq)',
     'R10 rewrites (slice forms): for .. in v.iter().enumerate() / v.iter().rev() / &v -> index loops; rows[i] = x -> rows.set(i, x)',
-    'Table::insert (normalisation, append tracker, statistics) is not under contract here: its IndexManager call is update_for_insert(schema, row, rows.len() before push)',
-    'the user-defined (CREATE INDEX) B-tree indexes of Database are a different registry (property C15: not applicable)',
+    'machine arithmetic: insert requires fewer than usize::MAX rows and modifications_since_stats < usize::MAX (the counter is incremented unchecked)',
+    'Table::rows_mut / schema_mut hand out `&mut` to the row vector and the schema (ALTER TABLE): their callers are NOT under contract and do not rebuild (observed, DESIGN 9b)',
+    'the user-defined (CREATE INDEX) B-tree indexes of Database are a different registry (units I-maint, I-insert, I-update, I-resolve)',
 ]
